@@ -15,6 +15,7 @@ RejOut(rec) == CSVWrite("%1$s", <<ToJson(rec)>>, IOEnv.REJ)
 
 Fail(p, why) == << [p |-> p, why |-> why] >>
 FailIf(cond, p, why) == IF cond THEN Fail(p, why) ELSE <<>>
+FailX(cond, p, why, exp) == IF cond THEN << [p |-> p, why |-> why, exp |-> exp] >> ELSE <<>>
 
 TInit == l = 1
 TStep(V(_)) ==
